@@ -4,6 +4,7 @@ use serde_json::{json, Value};
 use std::io::{BufRead, Write};
 
 mod conv;
+mod derive;
 mod dump;
 mod echo;
 mod errs;
@@ -23,6 +24,7 @@ fn dispatch(case: &Value) -> Value {
         "parse_list" => listparse::run_parse_list(case),
         "shape" => shapes::run_shape(case),
         "usage" => usage::run_usage(case),
+        "derive" => derive::run_derive(case),
         _ => json!({"error": format!("unknown op {}", op)}),
     }
 }
